@@ -8,13 +8,42 @@ TRUSTED_TOOLS = [
     'machine arithmetic: any overflow is a failed obligation (debug/test-profile semantics)',
 ]
 
+_T4 = ['u8', 'u16', 'u32', 'i64']
+
+
+def _pairs(prefix, solver, clause, quick=('i64_i64', 'u8_i64', 'i64_u32', 'u32_u16')):
+    hs = []
+    for a in _T4:
+        for b in _T4:
+            n = '%s_%s_%s' % (prefix, a, b)
+            hs.append(dict(name='proofs::' + n, solver=solver, clause=clause, fn='%s<%s,%s>::perform_checked' % (prefix, a, b),
+                           thorough_only=('%s_%s' % (a, b)) not in quick))
+    return hs
+
+
 UNITS = {
+    'U08k': dict(kind='kani', crate='kani/U08', needs_lock=True,
+                 title='numeric_operators.rs: CheckedBinaryOp::perform_checked for + - * / % over {u8,u16,u32,i64}^2 (complete: loop-free, full operand domain)',
+                 path_includes=['src/engine/operators/numeric_operators.rs'],
+                 harnesses=_pairs('add', 'cadical', 'no panic; !flag ==> v == l + r in Z; flag <==> l + r does not fit i64')
+                 + _pairs('sub', 'cadical', 'no panic; !flag ==> v == l - r in Z; flag <==> l - r does not fit i64')
+                 + _pairs('mul', 'z3', 'no panic; !flag ==> Some(v) == checked_mul(l, r); flag <==> checked_mul(l, r) is None')
+                 + _pairs('div', 'z3', 'no panic; r == 0 ==> flag; !flag ==> v == l / r (truncated); flag ==> r == 0 or quotient does not fit or equals the NULL marker')
+                 + _pairs('mod', 'z3', 'no panic; r == 0 <==> flag; !flag ==> v == l rem r')
+                 + [dict(name='proofs::vx_canary', solver='cadical', expect_fail=True)],
+                 assumptions=['num::ToPrimitive::to_i64 is compiled and executed symbolically by CBMC (not assumed)'],
+                 not_covered=['Multiplication<_,_,OrderedFloat<f64>> (floating point)']),
     'U01': dict(kind='verus', tpl='contracts/U01_bitvec.vx',
                 title='src/bitvec.rs: BitVecMut::{set,unset}, BitVec::is_set (Vec<u8>, [u8])',
                 assumptions=[], not_covered=[]),
 }
 
 PROPS = {
+    'C06': dict(level='proof', units=['U08k'],
+                level_text='complete (loop-free, full-domain) Kani proofs of the checked arithmetic kernels',
+                level_note='planner choice of checked vs unchecked node is not covered',
+                technique='contract-based deductive verification (Kani complete harnesses) of the real operator file',
+                assumptions=[], not_covered=[]),
     'C01': dict(level='proof', units=['U01'],
                 level_text='Verus proofs (all inputs, all iterations) of contracts on the real kernels extracted from /repo each run',
                 level_note='kernel contracts are proved; planner/executor glue, pco/lz4, CSV loader are named as unverified in evidence',
